@@ -288,10 +288,10 @@ Fixpoint parse_body (fuel : nat) (ts : list tok) {struct fuel} : pres (list node
         else if ty_in [$"css_property"; $"css_vendor_property"; $"css_user_property"] t then p_decl f (parse_body f) t r
         else if is_ty ($"less_variable") t then p_vardecl f (parse_body f) t r
         else if is_ty ($"css_media") t then p_media (parse_body f) t r
-        else if is_ty ($"css_keyframes") t || is_ty ($"css_font_face") t then p_atblock (parse_body f) t r
+        else if is_ty ($"css_keyframes") t || is_ty ($"css_font_face") t || is_ty ($"css_viewport") t then p_atblock (parse_body f) t r
         else if is_ty ($"css_charset") t then p_charset (parse_body f) t r
         else if is_ty ($"css_import") t then p_import (parse_body f) t r
-        else if ty_in [$"css_namespace"; $"css_page"; $"css_viewport"] t then PNoModel $"statement"
+        else if ty_in [$"css_namespace"; $"css_page"] t then PNoModel $"statement"
         else if is_ty ($"css_class") t then p_class f (parse_body f) t r
         else p_rule (parse_body f) ts
     end
